@@ -123,6 +123,11 @@ void check_visitor(const std::string &dir_abs, const std::string &dir_rel, const
     if (cwd() != home) { bad("visitor:restore-empty", "an unused visitor changed the working directory"); fs::current_path(home); }
     { tulz::DirectoryVisitor v{Path(dir_rel)}; v.restore(); if (cwd() != home) bad("visitor:explicit-restore", "restore() did not return to the previous directory"); }
     if (cwd() != home) fs::current_path(home);
+    // a visitor that has entered a directory and is then pointed at another one without visiting it still goes back where it came from
+    { tulz::DirectoryVisitor v{Path(dir_abs)}; shm->transitions++; v.set(Path(other_abs)); }
+    if (cwd() != home) { bad("visitor:set-after-visit", fmt("a visitor that had entered %s and was then given another directory with set() left the working directory at %s when it was destroyed", dir_abs.c_str(), cwd().c_str())); fs::current_path(home); }
+    { tulz::DirectoryVisitor v{Path(dir_abs)}; v.set(Path(other_abs)); v.restore(); if (cwd() != home) bad("visitor:set-after-visit", "restore() after visit() and set() did not return to the previous directory"); }
+    if (cwd() != home) fs::current_path(home);
     // one visitor object used twice: the second visit starts from another working directory, and that is the one to come back to
     {
         std::string d1 = canon(dir_abs);        // (the harness runs with the tree's root as working directory: the second visit starts from inside the directory and goes to the root)
